@@ -19,9 +19,9 @@ P(S) == IF S = {} THEN {} ELSE {RandomElement(S)}
 
 Obs == [e |-> last', life |-> life', mem |-> mem', st |-> st', ready |-> ready',
         phase |-> [n \in Ids |-> settle'[n].phase],
-        must |-> [u \in Updates |-> IF u \in Small /\ u \in wide' THEN {} ELSE cohort'[u]]]
+        must |-> [u \in Updates |-> IF u \in Small /\ u \in wide' \cup hurt' THEN {} ELSE cohort'[u]]]
 Obs0 == [e |-> [op |-> "init", ids |-> Ids, initup |-> InitUp, small |-> Small, big |-> Big,
-                fanout |-> Fanout, txlimit |-> TxLimit, okay |-> OkayRequired],
+                fanout |-> Fanout, txlimit |-> TxLimit, okay |-> OkayRequired, transport |-> Transport],
          life |-> [n \in Ids |-> IF n \in InitUp THEN "up" ELSE "new"],
          mem |-> [n \in Ids |-> IF n \in InitUp THEN InitUp \ {n} ELSE {}],
          st |-> [n \in Ids |-> {}], ready |-> [n \in Ids |-> n \in InitUp],
@@ -46,6 +46,8 @@ GenStep ==
   \/ \E n \in P(Up) : \E m \in P({x \in Up \ {n} : n \notin mem[x]}) : Learn(m, n)
   \/ (used.join < MaxJoin /\ \E n \in P(Down), b \in P(Budgets) : Restart(n, b))
   \/ \E n \in P(Up) : \E m \in P({x \in Up : n \in failed[x]}) : Reconnect(m, n)
+  \/ (used.reset < MaxReset /\ \E n \in P({x \in Up : \E y \in Ids : pool[y][x] = "ok"}) : ResetIn(n))
+  \/ \E a \in P(Up) : \E b \in P({x \in G(a) : Transport = "tls" /\ PoolAfter(a, x) # pool[a][x]}) : Probe(a, b)
   \/ \E n \in P({x \in Up : settle[x].phase = "polling"}) : Poll(n) \/ Expire(n)
   \/ \E n \in P(Up) : Flush(n)
 
